@@ -301,4 +301,95 @@ mod __verif {
         assert!(r32 == Some(v));
         kani::cover!(v >= 0xD800 && v < 0xE000);
     }
+
+    // ---------------------------------------------------------------------------------------------
+    // UTF-16 / UCS-2 inputs (feature utf16)
+
+    // @obligation name=a6_utf16_next_right_left props=C14 fn=indexing::Utf16Input::next_right,indexing::Utf16Input::next_left,indexing::Utf16Input::next_right_pos,indexing::Utf16Input::next_left_pos kind=complete domain="every pair of code units (u16,u16), every position 0..=2" features=utf16 min_checks=100 w=2 timeout=900
+    // Utf16Input decoding on an arbitrary 2-unit slice (lone surrogates included): next_right pairs exactly a high surrogate
+    // followed by a low one (value = the supplementary code point), otherwise yields the unit itself; next_left is its
+    // mirror image; next_*_pos move by the same amount; no panic and no position outside 0..=len.
+    #[cfg(feature = "utf16")]
+    #[kani::proof]
+    fn a6_utf16_next_right_left() {
+        let u: [u16; 2] = kani::any();
+        let input = Utf16Input::new(&u, kani::any());
+        let hi = |x: u16| (0xD800..=0xDBFF).contains(&x);
+        let lo = |x: u16| (0xDC00..=0xDFFF).contains(&x);
+        let pair = hi(u[0]) && lo(u[1]);
+        let cp = 0x10000 + (((u[0] as u32) & 0x3FF) << 10) + ((u[1] as u32) & 0x3FF);
+        let k: usize = kani::any();
+        kani::assume(k <= 2);
+        let start = input.left_end() + k;
+        let mut p = start;
+        let r = input.next_right(&mut p);
+        let np = input.next_right_pos(start);
+        match k {
+            0 => {
+                if pair { assert!(r == Some(cp) && input.pos_to_offset(p) == 2); } else { assert!(r == Some(u[0] as u32) && input.pos_to_offset(p) == 1); }
+                assert!(np == Some(p));
+            }
+            1 => { assert!(r == Some(u[1] as u32) && input.pos_to_offset(p) == 2 && np == Some(p)); }
+            _ => { assert!(r.is_none() && p == start && np.is_none()); }
+        }
+        let mut q = start;
+        let l = input.next_left(&mut q);
+        let nq = input.next_left_pos(start);
+        match k {
+            0 => { assert!(l.is_none() && q == start && nq.is_none()); }
+            1 => { assert!(l == Some(u[0] as u32) && input.pos_to_offset(q) == 0 && nq == Some(q)); }
+            _ => {
+                if pair { assert!(l == Some(cp) && input.pos_to_offset(q) == 0); } else { assert!(l == Some(u[1] as u32) && input.pos_to_offset(q) == 1); }
+                assert!(nq == Some(q));
+            }
+        }
+        kani::cover!(pair && k == 2);
+        kani::cover!(hi(u[0]) && !lo(u[1]));
+    }
+
+    // @obligation name=a6_utf16_agrees_with_std props=C14 fn=indexing::Utf16Input::next_right kind=complete domain="every char (its UTF-16 encoding)" features=utf16 min_checks=100 w=2 timeout=900
+    // On the well-formed UTF-16 encoding of any char, next_right returns that char's code point and consumes the whole
+    // encoding (1 or 2 units) - agreement with std's encode_utf16.
+    #[cfg(feature = "utf16")]
+    #[kani::proof]
+    fn a6_utf16_agrees_with_std() {
+        let c: char = kani::any();
+        let mut buf = [0u16; 2];
+        let n = c.encode_utf16(&mut buf).len();
+        let input = Utf16Input::new(&buf[..n], true);
+        let mut p = input.left_end();
+        assert!(input.next_right(&mut p) == Some(c as u32));
+        assert!(input.pos_to_offset(p) == n);
+        let mut q = input.right_end();
+        assert!(input.next_left(&mut q) == Some(c as u32));
+        assert!(input.pos_to_offset(q) == 0);
+        kani::cover!(n == 2);
+    }
+
+    // @obligation name=a6_ucs2_never_pairs props=C14 fn=indexing::Ucs2Input::next_right,indexing::Ucs2Input::next_left,indexing::Ucs2Input::subrange_eq kind=complete domain="every pair of code units, every position" features=utf16 min_checks=100 w=2 timeout=900
+    // Ucs2Input treats every code unit as one element (never pairs surrogates), in both directions; subrange_eq compares
+    // code units and moves by the range length; no panic on arbitrary units.
+    #[cfg(feature = "utf16")]
+    #[kani::proof]
+    fn a6_ucs2_never_pairs() {
+        let u: [u16; 2] = kani::any();
+        let input = Ucs2Input::new(&u, kani::any());
+        let k: usize = kani::any();
+        kani::assume(k <= 2);
+        let start = input.left_end() + k;
+        let mut p = start;
+        let r = input.next_right(&mut p);
+        assert!(r == if k < 2 { Some(u[k] as u32) } else { None });
+        assert!(input.pos_to_offset(p) == if k < 2 { k + 1 } else { k });
+        let mut q = start;
+        let l = input.next_left(&mut q);
+        assert!(l == if k > 0 { Some(u[k - 1] as u32) } else { None });
+        assert!(input.pos_to_offset(q) == if k > 0 { k - 1 } else { k });
+        // backreference to the first unit, matched at position 1
+        let mut b = input.left_end() + 1;
+        let ok = input.subrange_eq(Forward::new(), &mut b, input.left_end()..(input.left_end() + 1));
+        assert!(ok == (u[0] == u[1]));
+        if ok { assert!(input.pos_to_offset(b) == 2); }
+        kani::cover!(ok);
+    }
 }
